@@ -25,7 +25,14 @@ PROP = {'level': 'proof',
          'const_eq!/const_cmp! on Options and const_*_for!(option;..); assertc_eq!/assertc_ne! under '
          'catch_unwind for scalars and str; the order laws evaluated on all triples of small scopes '
          '(cmp.laws); plus a seeded random stream of pairs of longer slices/strings sharing long common '
-         'prefixes (1500-3000 per type quick, 20000-40000 thorough).',
+         'prefixes (1500-3000 per type quick, 20000-40000 thorough). A second seeded stream of LONG pairs '
+         '(~8 600 / 86 000 requests): for every scalar element type 40 / 400 pairs of slices of 10..=40 '
+         'elements sharing a long common prefix (one late change at index >= 8, often the last element; one '
+         'a proper prefix of the other; a few more elements; equal) through eq/cmp fn/macro/for, a quarter '
+         'also through forkey/forcl/forpath and a quarter as Some(..) through the Option functions; 300 / 3 '
+         '000 pairs of strings of 10..=40 chars with many multi-byte characters differing late; 150 / 1 500 '
+         'pairs each of &[&str] and &[&[u8]] of 10..=40 elements (short elements, and long elements that '
+         'themselves share long prefixes).',
  'explanation': 'Theorems (Props/C16.lean) state model = std spec for every pair; the transcript ties the '
                 'model to the code (impl = model) and the spec to the real std (spec = oracle PartialEq::eq '
                 '/ Ord::cmp) on every request.',
